@@ -1,6 +1,7 @@
 //@ tu: libxcm/ctl/ctl.c
 //@ enforce: add_attr
 //@ pre-unwind: strcmp.0:9
+//@ timeout: 1200
 //@ props: C14
 //@ expect: postcondition>=2 canary=6
 #include "_unit.h"
